@@ -7,6 +7,7 @@ mod c11;
 mod c12;
 mod c14;
 mod c15;
+mod c16;
 mod c20;
 mod c_docs;
 mod common;
@@ -42,6 +43,7 @@ fn main() {
             "C01" | "C02" | "C09" => c_docs::replay(prop, path),
             "C03" => c03::replay(path),
             "C14" => c14::replay(path),
+            "C16" => c16::replay(path),
             "C05" => c05::replay(path),
             "C04" => c04::replay(path),
             "C12" => c12::replay(path),
@@ -73,6 +75,7 @@ fn main() {
         "C09" => c_docs::c09(tier),
         "C03" => c03::c03(tier),
         "C14" => c14::c14(tier),
+        "C16" => c16::c16(tier),
         "C05" => c05::c05(tier),
         "C04" => c04::c04(tier),
         "C12" => c12::c12(tier),
